@@ -14,6 +14,13 @@ func dumpFunc(w *World, spec string) {
 		dumpDetector(w)
 		return
 	}
+	if strings.HasPrefix(spec, "writes=") { // writes=<pkgpath>#<type>
+		a := strings.SplitN(strings.TrimPrefix(spec, "writes="), "#", 2)
+		for _, cw := range settingsWrites(w, newTermEnv(w), a[0], a[1]) {
+			fmt.Printf("%s %s.%s field=%q <- %s\n", w.InstrPos(cw.Instr), relPkg(cw.Fn), cw.Fn.Name(), cw.Field, cw.Val)
+		}
+		return
+	}
 	i := strings.Index(spec, ":")
 	fn := w.Func(spec[:i], spec[i+1:])
 	if fn == nil {
@@ -73,7 +80,7 @@ func dumpDetector(w *World) {
 			row := d.rangeOf(e, a.Row)
 			cs := "-"
 			if a.Col != nil {
-				c := d.rangeOf(e, a.Col)
+				c := d.colRange(e, a)
 				cs = fmt.Sprintf("[%s, %s] %v %s", c.lo, c.hi, c.ok, c.why)
 			}
 			fmt.Printf("   %s %s frame=%s row=[%s, %s] %v %s col=%s\n", w.InstrPos(a.Instr), kind, e.termOf(a.Frame), row.lo, row.hi, row.ok, row.why, cs)
